@@ -68,7 +68,15 @@ def main(argv):
     if args.only:
         tasks = [t for t in tasks if re.search(args.only, t.get('space', 'main'))]
         args.no_evidence = True
-    total, errors = core.run_tasks(mod, tasks, args.jobs, budget=args.budget)
+    findings = load_findings(prop)
+    mod_matcher = getattr(mod, 'classify', None)
+
+    def matcher(v):
+        for f in findings:
+            if (mod_matcher(v, f) if mod_matcher else generic_match(v, f)):
+                return f['id']
+        return None
+    total, errors = core.run_tasks(mod, tasks, args.jobs, budget=args.budget, matcher=matcher if findings else None)
     wall = time.time() - t0
 
     if errors:
@@ -88,9 +96,8 @@ def main(argv):
         print('HARNESS-ERROR property=%s %s' % (prop, '; '.join(problems)))
         return 2
 
-    # triage: known findings vs violations
-    findings = load_findings(prop)
-    matcher = getattr(mod, 'classify', None)
+    # triage: known findings (recognised at record time, before trimming) vs new violations
+    fmap = {f['id']: f for f in findings}
     hit = {}
     fresh = []
     total.violations.sort(key=lambda it: (len(json.dumps(it['input'], default=str)), json.dumps(it['input'], default=str)))
@@ -100,18 +107,11 @@ def main(argv):
         if key in seen_inputs:
             continue
         seen_inputs.add(key)
-        f_hit = None
-        for f in findings:
-            ok = matcher(v, f) if matcher else generic_match(v, f)
-            if ok:
-                f_hit = f
-                break
-        if f_hit is not None:
-            hit.setdefault(f_hit['id'], [f_hit, 0, v])[1] += 1
+        if v.get('known'):
+            if v['known'] not in hit:
+                hit[v['known']] = [fmap[v['known']], total.known_counts[v['known']], v]
         else:
             fresh.append(v)
-    # all violations were kept per class up to a cap; if the cap trimmed some away
-    # the per-class counter still tells how many there were.
     for fid, (f, n, w) in sorted(hit.items()):
         print('KNOWN-FINDING: property=%s %s %s [witness %s]' % (prop, fid, f['text'], json.dumps(w['input'], default=str)[:200]))
     rc = 0
